@@ -165,6 +165,19 @@ def step (line : String) : String :=
       | "standard" => fin (registerColl p x [XrefTables.standardName] t ns)
       | _ => "bad-op"
     | _, _, _, _ => "bad-op"
+  | ["sr", pol, xref, keys, decs] =>
+    -- the specification checker on the decisions the REAL code took: decs = name:U<handle> | name:A<new name> | name:E ; …
+    let pDec (s : String) : Option Decision :=
+      if s == "E" then some .error
+      else if s.startsWith "U" then (s.drop 1).toNat?.map .useExisting
+      else if s.startsWith "A" then (pStr (String.ofList (s.toList.drop 1))).map .add else none
+    let pairs := (splitNE decs ";").mapM fun kv => match kv.splitOn ":" with
+      | [n, d] => do let a ← pStr n; let b ← pDec d; pure (a, b)
+      | _ => none
+    match pPolicy pol, pStr xref, pStrs keys, pairs with
+    | some p, some x, some ks, some nd =>
+      if specRunB p x ks (nd.map fun e => (e.1, 0)) (nd.map (·.2)) then "ok" else "violates"
+    | _, _, _, _ => "bad-op"
   | ["tr", src, tgt, sig, regs, placed] =>
     match pNodes src, pNodes tgt, pPairs sig, pRegs regs, parseNats placed with
     | some s, some t, some σ, some rs, some pl =>
